@@ -296,6 +296,59 @@ def ob_name_superset(run, mir, rp, fam):
     e2.prove(run, ob, ex, [], conj(claims), names, fam.as_replay("union-memberwise:", only=["member-", "other-member", "non-member", "union-"]))
 
 
+def ob_string_name_direction(run, mir, rp, fam):
+    ob = run.ob("string-name-superset-direction", "E2", "StringName::is_superset_of(self, other): the class looked up is OTHER's and it is asked "
+                "whether SELF is among its ancestors (a lookup error propagates) - not the other way round; TrueName::is_superset_of hands "
+                "its variants over in the same order", ["StringName::is_superset_of", "TrueName::is_superset_of"])
+    fn = e2.find1(mir, file=STRING_NAME_RS, impl="IsSuperSet<StringName> for StringName", name="is_superset_of")
+    ex = Exec(mir, max_paths=2000)
+    st = State()
+    selfr, otherr, ctx = (Ref(ex.new_cell(st, opq(n, t))) for n, t in (("self", "StringName"), ("other", "StringName"), ("ctx", "Context")))
+    pos = opq("pos", "Position")
+    ends = e2.run_kernel(run, ex, fn, [selfr, otherr, ctx, pos], st)
+    claims = []
+    for p in ends:
+        if p.kind != "return":
+            raise Unsupported(f"unexpected path end {p}")
+        s = p.state
+        cls = [ev for ev in p.events if ev["name"].endswith("::class")]
+        hp = [ev for ev in p.events if ev["name"].endswith("::has_parent")]
+        spec = [z3.BoolVal(len(cls) == 1)]
+        if len(cls) == 1:
+            spec.append(cls[0]["argvals"][1] == ex.to_val(s, otherr))
+            d = ex.discr(s, cls[0]["ret"], "Result")
+            spec.append(z3.Implies(d == 1, z3.BoolVal(result_kind(p) == "Err" and not hp)))
+            if hp:
+                okc = ex.project(s, ex.project(s, cls[0]["ret"], ("v", "Ok")), ("f", 0), "Class")
+                spec.append(z3.And(d == 0, z3.BoolVal(len(hp) == 1), hp[0]["argvals"][0] == ex.to_val(s, okc), hp[0]["argvals"][1] == ex.to_val(s, selfr),
+                                   ex.to_val(s, p.ret) == ex.to_val(s, hp[0]["ret"])))
+            else:
+                spec.append(d == 1)
+        claims.append(z3.Implies(conj(p.cond), conj(spec)))
+    # TrueName -> StringName hand-over
+    fn2 = e2.find1(mir, file=TRUE_NAME_RS, impl="IsSuperSet<TrueName> for TrueName", name="is_superset_of")
+    ex2 = Exec(mir, max_paths=5000)
+    st2 = State()
+    tn = e2.rust_struct(TRUE_NAME_RS, "TrueName")
+    mk = lambda tag: mk_struct(TRUE_NAME_RS, "TrueName", {f: (z3.Bool(f"{tag}.{f}") if f.startswith("is_") else opq(f"{tag}.{f}", "StringName")) for f in tn})
+    a, b = mk("self"), mk("other")
+    ar, br, ctx2 = Ref(ex2.new_cell(st2, a)), Ref(ex2.new_cell(st2, b)), Ref(ex2.new_cell(st2, opq("ctx", "Context")))
+    ends2 = e2.run_kernel(run, ex2, fn2, [ar, br, ctx2, opq("pos", "Position")], st2)
+    iv = tn.index("variant")
+    claims2 = []
+    for p in ends2:
+        for ev in p.events:
+            if ev["name"].endswith("is_superset_of"):
+                claims2.append(z3.Implies(conj(p.cond), z3.And(ev["argvals"][0] == ex2.to_val(p.state, a.fields[iv]),
+                                                               ev["argvals"][1] == ex2.to_val(p.state, b.fields[iv]))))
+    if not claims2:
+        raise Unsupported("TrueName::is_superset_of never compares variants")
+    e2.prove(run, ob, ex, [], conj(claims), {}, fam.as_replay("superset-direction:", only=["child-to-parent", "parent-to-child", "int-to-float", "float-to-int"]))
+    if ob.status == "discharged":
+        ob.status = "pending"
+        e2.prove(run, ob, ex2, [], conj(claims2), {}, fam.as_replay("superset-direction:", only=["child-to-parent", "parent-to-child", "int-to-float", "float-to-int"]))
+
+
 def ob_ord(run, mir, rp, fam):
     ob = run.ob("true-name-total-order", "E2", "Ord for TrueName: Equal exactly for equal names, antisymmetric, and "
                 "decided by (variant, nullable, mutable) lexicographically — the order that makes union rendering independent "
@@ -341,7 +394,7 @@ def run(run):
                "commutativity/associativity/idempotence of union (HashSet operations)")
     run.trusted += ["rustc nightly MIR dump", "mirsym MIR semantics", "z3"]
     run.bounds = {"parents": 2, "union_members": 3}
-    for f in (ob_has_parent, ob_generics, ob_has_parent_name, ob_name_superset, ob_ord):
+    for f in (ob_has_parent, ob_generics, ob_has_parent_name, ob_name_superset, ob_string_name_direction, ob_ord):
         try:
             f(run, mir, rp, fam)
         except Unsupported as e:
